@@ -207,7 +207,7 @@ Unsolicited trade
 Morgan Stanley Smith Barney LLC acted as agent.
 
 2 of 2
-"""
+{disclosure}"""
 
 
 def money2(fr):
@@ -219,7 +219,8 @@ def f6(fr):
 
 
 def f4(n):
-    return "%d.0000" % n
+    fr = Fraction(n)
+    return "%d.%04d" % (fr.numerator // fr.denominator, (fr - fr.numerator // fr.denominator) * 10000)
 
 
 def gen_scenario(rng):
@@ -229,6 +230,7 @@ def gen_scenario(rng):
     syms = ["FOO"] if rng.random() < 0.75 else ["FOO", "BAR"]
     benefits = []
     trades = []
+    eso_unequal = False
     d = datetime.date(year, rng.randint(1, 10), rng.randint(1, 20))
     nb = rng.randint(1, 4)
     award = rng.randint(10000, 99000)
@@ -264,11 +266,18 @@ def gen_scenario(rng):
                                  "ex_type": rng.choice(["Same-Day Sale", "Sell to Cover"]) if gi == 0 else None})
             for b_ in benefits[-ng:]:
                 b_["ex_type"] = benefits[-ng]["ex_type"]
+            if ng >= 3 and rng.random() < 0.2:
+                # the grants of one exercise state different sale prices: which one applies to the sale cannot be told
+                for b_ in benefits[-ng:-1]:
+                    b_["sale_price"] = sale_price + Fraction(3, 2)
+                eso_unequal = True
             trades += own
             continue
         released = rng.randint(5, 200)
+        if kind == "ESPP" and rng.random() < 0.3:
+            released = Fraction(released * 10000 + rng.randint(1, 9999), 10000)      # plans buy fractional shares (57.3421)
         fmv = Fraction(rng.randint(2000, 30000), 100)
-        sold = rng.randint(1, max(1, released // 2)) if (kind == "RSU" or rng.random() < 0.7) else 0
+        sold = rng.randint(1, max(1, int(released) // 2)) if (kind == "RSU" or rng.random() < 0.7) else 0
         b = {"kind": kind, "sym": sym, "date": d, "released": released, "fmv": fmv, "sold": sold, "award": "R%d" % (award + bi),
              "fee": Fraction(rng.randint(1, 3000), 100)}
         # its sell-to-cover trades
@@ -295,7 +304,7 @@ def gen_scenario(rng):
             b["sale_price"] = Fraction(int(tot / sold * 10 ** 6), 10 ** 6)
         else:
             b["sale_price"] = None
-        if kind == "ESPP" and sold and rng.random() < 0.12:
+        if kind in ("ESPP", "RSU") and sold and rng.random() < 0.12:
             # a sale price of four figures is printed with a thousands separator ($1,004.250000)
             b["price_with_comma"] = True
             for t in own:
@@ -348,7 +357,7 @@ def gen_scenario(rng):
                 other["td"] = b["date"] - datetime.timedelta(days=1)
                 other["sd"] = other["td"] + datetime.timedelta(days=2)
             trades.append(other)
-    return {"era": era, "benefits": benefits, "trades": trades, "consistent_by_construction": consistent}
+    return {"era": era, "benefits": benefits, "trades": trades, "consistent_by_construction": consistent, "eso_unequal": eso_unequal}
 
 
 def render_files(rng, sc):
@@ -370,7 +379,8 @@ def render_files(rng, sc):
             continue
         if b["kind"] == "RSU":
             text = RSU_TMPL.format(company=COMPANY[b["sym"]], sym=b["sym"], award=b["award"], date_dash=dd, released=f4(b["released"]),
-                                   fmv=f6(b["fmv"]), sale_price=f6(b["sale_price"] or b["fmv"]), market_value=money2(b["fmv"] * b["released"]),
+                                   fmv=f6(b["fmv"]), sale_price=(lambda sp: sp[0] + "," + sp[1:])(f6(b["sale_price"] + 1000)) if (b.get("price_with_comma") and b["sold"]) else f6(b["sale_price"] or b["fmv"]),
+                                   market_value=money2(b["fmv"] * b["released"]),
                                    sold=f4(b["sold"]), issued=f4(b["released"] - b["sold"]), total_sale=money2((b["sale_price"] or 0) * b["sold"]),
                                    fee=gen.dec_str(b["fee"], 2) if "." in gen.dec_str(b["fee"], 2) else gen.dec_str(b["fee"], 2) + ".00")
         else:
@@ -412,6 +422,8 @@ def render_files(rng, sc):
         for ti, t in enumerate(sc["trades"]):
             text = POST_TMPL.format(td=t["td"].strftime("%m/%d/%Y"), sd=t["sd"].strftime("%m/%d/%Y"), qty=t["qty"], price=price3(t["price"]),
                                     act_word="Bought" if t.get("act") == "Buy" else "Sold",
+                                    disclosure=rng.choice(["", "", "Please review this trade confirmation carefully and report discrepancies.\n",
+                                                           "Conditions and disclosures: this Trade Confirmation is subject to the terms overleaf.\n"]),
                                     company=COMPANY[t["sym"]], sym=t["sym"],
                                     comm_line="Commission $%s\n" % fee2(t["comm"]) if t["comm"] is not None else "",
                                     fee_line="Transaction Fee $%s\n" % fee2(t["fee"]) if t["fee"] is not None else "")
@@ -473,10 +485,15 @@ def judge(sc, res):
     if "panic" in res:
         return {"what": "extractor panicked", "panic": res["panic"]}
     benefits, trades = sc["benefits"], sc["trades"]
+    if sc.get("eso_unequal"):
+        if res.get("ok"):
+            return {"what": "an option exercise whose grants state different sale prices is accepted (a guess, not an error)", "out": res.get("out", "")[:300]}
+        return None if (res.get("err") or "").strip() else {"what": "failure without a message"}
     feasible = feasible_assignment(benefits, trades)
     if not res.get("ok"):
         if (any(b.get("price_with_comma") for b in benefits) and not res.get("out", "").strip()
-                and ("sell-to-cover fields" in str(res.get("err")) or "Average reported sale price: None" in str(res.get("err")))):
+                and ("sell-to-cover fields" in str(res.get("err")) or "Average reported sale price: None" in str(res.get("err"))
+                     or "Sale Price Per Share" in str(res.get("err")))):
             return None      # the four-figure price layout is reported as unreadable, with the benefit named: refused, not guessed
         if feasible and sc["consistent_by_construction"]:
             return {"what": "a consistent set of confirmations is rejected", "err": res.get("err")}
